@@ -10,7 +10,7 @@ from .common import analysis, R_NAMES, K_NAMES, tokens, names_in
 from .c01 import check_shapes
 
 PROP = "C08"
-TECHNIQUE = "decision-table extraction of the promotion relation over the 8x8 primitive pairs against the spec table; reader/skip wire-shape agreement; CFG definite-assignment and no-implicit-None exits; provenance (writer/reader label) of name-table keys; exact-before-promotion ordering at reader-union sites"
+TECHNIQUE = "decision-table extraction of the promotion relation over the 8x8 primitive pairs (finite-domain evaluation incl. literal tables) against the spec table; reader/skip wire-shape agreement; CFG definite-assignment and no-implicit-None exits; provenance (writer/reader label) of name-table keys; exact-before-promotion ordering at reader-union sites; who-may-drop discipline for the reader schema with dominating facts"
 LEVEL_TEXT = (
     "Static analysis: the relation match_types implements on primitive pairs is extracted by evaluating its guards on all 64 pairs "
     "and must equal the specification's promotion table, maybe_promote must convert exactly the pairs whose Python representation "
